@@ -1,6 +1,7 @@
 (* C12 - proofs: the analysis results are a stable fixed point of the pass pipeline.
    Statements are those of Props/C12.v:
-     avail_fix, avail_fix_fresh, passes_frame, ecallterm_idem, rerun_live, diags_ignore_udef.
+     avail_fix_full (avail_fix, avail_fix_fresh: corollaries), passes_frame, ecallterm_idem, rerun_live,
+     diags_ignore_udef.
    The liveness statement without a hypothesis is FALSE of the model (`live_fix_counterexample`: a
    call site whose label maps to a function id without a function is skipped by `live_node`, so its
    live_out is never set); Props/C12.v states it under `calls_resolved`, proved as `live_fix_partial`. *)
@@ -1047,9 +1048,10 @@ Lemma avail_sweep_eq idx g vis F vis' :
 Proof.
   revert g vis; induction idx as [|i idx IH]; intros g vis H; simpl in H.
   - inversion H; subst. apply Forall2_refl, eqf_refl.
-  - destruct (avail_node g vis i) as [g1 c1] eqn:E. destruct c1; simpl in H.
-    + apply avail_sweep_true in H. discriminate.
-    + apply avail_node_eq in E. apply IH in H. eapply Forall2_trans; eauto using eqf_trans.
+  - destruct (avail_node g vis i) as [g1 c1] eqn:E.
+    destruct c1; [simpl in H; apply avail_sweep_true in H; discriminate|].
+    destruct (memn i vis) eqn:M; simpl in H; [|apply avail_sweep_true in H; discriminate].
+    apply avail_node_eq in E. apply IH in H. eapply Forall2_trans; eauto using eqf_trans.
 Qed.
 
 Lemma avail_node_other g vis i g' ch j : avail_node g vis i = (g', ch) -> j <> i -> nth_opt g' j = nth_opt g j.
@@ -1094,6 +1096,19 @@ Proof.
   - now inversion H; subst.
   - destruct (avail_node g vis i) as [g1 c1]. rewrite (IH _ _ _ H p), memn_ins. simpl.
     destruct (Nat.eqb p i), (memn p idx), (memn p vis); reflexivity.
+Qed.
+
+(* a sweep that sets no flag has met no new node (fix: a node seen for the first time counts as a change) *)
+Lemma avail_sweep_false_vis idx g vis F vis' :
+  avail_sweep idx g vis false = (F, vis', false) -> forall j, In j idx -> memn j vis = true.
+Proof.
+  revert g vis; induction idx as [|i idx IH]; intros g vis H j I; [destruct I|]. simpl in H.
+  destruct (avail_node g vis i) as [g1 c1] eqn:E.
+  destruct c1; [simpl in H; apply avail_sweep_true in H; discriminate|].
+  destruct (memn i vis) eqn:M; simpl in H; [|apply avail_sweep_true in H; discriminate].
+  destruct I as [<-|I]; [exact M|].
+  pose proof (IH _ _ H j I) as Q. rewrite memn_ins in Q.
+  destruct (Nat.eqb j i) eqn:Eji; [apply Nat.eqb_eq in Eji; subst j; exact M|exact Q].
 Qed.
 
 Definition visok (n : nat) (vis : list nat) : Prop := forall p, memn p vis = Nat.ltb p n.
@@ -1176,8 +1191,9 @@ Lemma avail_sweep_ok idx g vis F vis' :
   forall i c, In i idx -> nth_opt F i = Some c -> NodeOK F c.
 Proof.
   revert g vis; induction idx as [|i idx IH]; intros g vis V B H j c I Ec; [destruct I|].
-  simpl in H. destruct (avail_node g vis i) as [g1 c1] eqn:E. destruct c1; simpl in H.
-  { apply avail_sweep_true in H. discriminate. }
+  simpl in H. destruct (avail_node g vis i) as [g1 c1] eqn:E.
+  destruct c1; [simpl in H; apply avail_sweep_true in H; discriminate|].
+  destruct (memn i vis) eqn:M; simpl in H; [|apply avail_sweep_true in H; discriminate].
   pose proof (avail_node_eq _ _ _ _ E) as Q1. pose proof (avail_sweep_eq _ _ _ _ _ H) as Q2.
   destruct (in_dec Nat.eq_dec j idx) as [I'|N].
   { refine (IH g1 (ins i vis) _ _ H j c I' Ec).
@@ -1244,15 +1260,44 @@ Proof.
   rewrite !rm_eqb_norm, !mm_eqb_norm. auto.
 Qed.
 
-Theorem avail_fix : forall g g', avail_pass g = Ok g' -> AvailEqns g' \/ same_avail_facts g g'.
+(* Since the fix every run ends with a sweep in which no fact changed and no node was new: all nodes had
+   been visited before it, so the equations hold with ALL predecessors.  The visited set only ever
+   contains node indices. *)
+Lemma avail_loop_full fuel g vis F :
+  (forall p, memn p vis = true -> (p < length g)%nat) -> avail_loop fuel g vis = Ok F ->
+  forall i c, nth_opt F i = Some c -> NodeOK F c.
 Proof.
-  intros g g' H. apply avail_pass_inv in H. destruct H as [ns [H ->]].
-  apply avail_loop_top in H. destruct H as [[_ Q]|OK].
-  - right. apply eqf_same_facts. exact Q.
-  - left. apply NodeOK_eqns. exact OK.
+  revert g vis; induction fuel; intros g vis V H; simpl in H; [discriminate|].
+  destruct (avail_sweep (seq 0 (length g)) g vis false) as [[g1 v1] ch] eqn:E.
+  pose proof (F2_length (avail_sweep_frame _ _ _ _ _ _ _ E)) as L.
+  destruct ch.
+  - apply (IHfuel g1 v1); auto. intros p Hp.
+    rewrite (avail_sweep_vis _ _ _ _ _ _ _ E p), memn_seq in Hp. rewrite <- L.
+    apply orb_true_iff in Hp. destruct Hp as [Hp|Hp]; [|apply V; exact Hp].
+    apply andb_true_iff in Hp. destruct Hp as [_ Hp]. apply Nat.ltb_lt in Hp. exact Hp.
+  - inversion H; subst g1.
+    assert (VK : visok (length g) vis).
+    { intros p. destruct (Nat.ltb p (length g)) eqn:Lp.
+      - apply Nat.ltb_lt in Lp. apply (avail_sweep_false_vis _ _ _ _ _ E p). apply in_seq. lia.
+      - destruct (memn p vis) eqn:Mp; [|reflexivity]. apply V in Mp. apply Nat.ltb_ge in Lp. lia. }
+    intros i c Ec. eapply avail_sweep_ok; eauto.
+    + intros k Ik. apply in_seq in Ik. lia.
+    + apply in_seq. apply nth_opt_some_lt in Ec. lia.
 Qed.
 
-(* fresh graphs: the first sweep always changes the program entry *)
+Theorem avail_fix_full : forall g g', avail_pass g = Ok g' -> AvailEqns g'.
+Proof.
+  intros g g' H. apply avail_pass_inv in H. destruct H as [ns [H ->]].
+  apply NodeOK_eqns. cbn [gnodes]. apply (avail_loop_full (avail_fuel g) (gnodes g) [] ns); [|exact H].
+  intros p Hp. discriminate Hp.
+Qed.
+
+(* the weaker statement that held before the fix (a run whose first sweep changed nothing stopped at once) *)
+Theorem avail_fix : forall g g', avail_pass g = Ok g' -> AvailEqns g' \/ same_avail_facts g g'.
+Proof. intros g g' H. left. exact (avail_fix_full g g' H). Qed.
+
+(* fresh graphs: the first sweep always changes the program entry (before the fix of avail_sweep this was
+   what excluded the no-op run; now an instance of avail_fix_full) *)
 Definition fresh_avail (g : cfg) : Prop :=
   (exists c rest, gnodes g = c :: rest /\ is_program_entry (cn c) = true) /\
   forall i c, nth_opt (gnodes g) i = Some c -> rin c = [] /\ rout c = [] /\ min c = [] /\ mout c = [].
@@ -1274,23 +1319,5 @@ Proof.
   induction ps; simpl; auto.
 Qed.
 
-Lemma fresh_changes g :
-  fresh_avail g -> snd (avail_sweep (seq 0 (length (gnodes g))) (gnodes g) [] false) = true.
-Proof.
-  intros [[c [rest [E P]]] Z]. rewrite E. cbn [length seq avail_sweep].
-  assert (G : getn (c :: rest) 0 = Some c) by reflexivity.
-  rewrite (avail_node_some _ _ _ _ G).
-  destruct (Z 0%nat c) as [_ [Ro _]]; [rewrite E; reflexivity|].
-  unfold an_T, an_ri, an_mi. rewrite meet_regs_nil, meet_mems_nil, (entry_transfer c P), Ro.
-  cbn [rm_eqb]. rewrite !andb_false_r. cbn [negb orb].
-  match goal with |- snd ?X = true => destruct X as [[g1 v1] ch] eqn:S end.
-  apply avail_sweep_true in S. exact S.
-Qed.
-
 Theorem avail_fix_fresh : forall g g', fresh_avail g -> avail_pass g = Ok g' -> AvailEqns g'.
-Proof.
-  intros g g' Fr H. apply avail_pass_inv in H. destruct H as [ns [H ->]].
-  apply avail_loop_top in H. destruct H as [[C _]|OK].
-  - rewrite (fresh_changes g Fr) in C. discriminate.
-  - apply NodeOK_eqns. exact OK.
-Qed.
+Proof. intros g g' _ H. exact (avail_fix_full g g' H). Qed.
